@@ -64,6 +64,7 @@ const (
 	fGhostMisc = -20
 	fGhostSeq  = -21
 	fGhostCap  = -22
+	fGhostMap  = -23
 )
 
 const maxLen = 1 << 48
